@@ -197,7 +197,7 @@ func (tx *FnTx) applyContract(c *FnContract, key string, names []string, args []
 	post := st
 	if !c.Pure {
 		if c.ModAll || !c.HasMod && c.Extern && false {
-			post = tx.h.havocAll(st)
+			post = tx.havocAllP(st)
 		} else {
 			regs, err := tx.resolveMods(c.Modifies, env, false)
 			if err != nil {
@@ -367,7 +367,7 @@ func (tx *FnTx) callCommon(cc *ssa.CallCommon, v ssa.Value, st *State) *State {
 			return st
 		}
 		tx.note("default-havoc callee: " + key)
-		post := tx.h.havocAll(st)
+		post := tx.havocAllP(st)
 		res := tx.freshResults("inv_"+cc.Method.Name(), sig, post)
 		tx.setResult(v, sig, res)
 		return tx.afterCall(desc, post, st, res)
@@ -435,7 +435,7 @@ func (tx *FnTx) callCommon(cc *ssa.CallCommon, v ssa.Value, st *State) *State {
 		tx.oblige("safe", fmt.Sprintf("call@%s.%d", key, k), "false", tx.curReach, "callee "+key+" has no contract (may panic)")
 	}
 	tx.note("default-havoc callee: " + key)
-	post := tx.h.havocAll(st)
+	post := tx.havocAllP(st)
 	res := tx.freshResults("call_"+sanitize(callee.Name()), sig, post)
 	tx.setResult(v, sig, res)
 	return tx.afterCall(desc, post, st, res)
@@ -503,7 +503,7 @@ func (tx *FnTx) callDynamic(cc *ssa.CallCommon, v ssa.Value, args []Term, st *St
 		post.alloc = na
 		tx.note("call of function value " + name + " in " + tx.key + ": assumed to write only its declared callback frame (trusted)")
 	} else {
-		post = tx.h.havocAll(st)
+		post = tx.havocAllP(st)
 	}
 	res := tx.freshResults("dyn_"+sanitize(name), sig, post)
 	// ghost trace
@@ -514,6 +514,28 @@ func (tx *FnTx) callDynamic(cc *ssa.CallCommon, v ssa.Value, args []Term, st *St
 	}
 	for i, r := range res {
 		post.ghost[fmt.Sprintf("lastret!%s!%d", name, i)] = Term{S: r.S, Sort: r.Sort, GT: r.GT}
+	}
+	// per-object trace when the function value is a field of a struct object: callsOn(obj, "field")
+	if u, ok := cc.Value.(*ssa.UnOp); ok && u.Op == token.MUL {
+		if fa, ok := u.X.(*ssa.FieldAddr); ok {
+			if _, isStatic := tx.locs[fa.X]; !isStatic {
+				obj := tx.val(fa.X).S
+				ca := tx.h.ghostTerm(st, "callsAt!"+name, "(Array Int Int)")
+				post.ghost["callsAt!"+name] = Term{S: fmt.Sprintf("(store %s %s (+ (select %s %s) 1))", ca.S, obj, ca.S, obj), Sort: "(Array Int Int)"}
+				for i, r := range res {
+					key := fmt.Sprintf("lastretAt!%s!%d", name, i)
+					srt := "(Array Int " + r.Sort + ")"
+					g := tx.h.ghostTerm(st, key, srt)
+					post.ghost[key] = Term{S: sapp("store", g.S, obj, r.S), Sort: srt}
+				}
+				for i, a := range args {
+					key := fmt.Sprintf("lastargAt!%s!%d", name, i)
+					srt := "(Array Int " + a.Sort + ")"
+					g := tx.h.ghostTerm(st, key, srt)
+					post.ghost[key] = Term{S: sapp("store", g.S, obj, a.S), Sort: srt}
+				}
+			}
+		}
 	}
 	tx.setResult(v, sig, res)
 	tx.note("call of function value " + name + " in " + tx.key + ": arbitrary heap effect, traced in ghost calls/lastarg/lastret")
